@@ -242,7 +242,16 @@ def tasks_c10(tier, seed):
 
 
 def tasks_c20(tier, seed):
-    return seq("c20", tier, shards=16)
+    ts = seq("c20", tier, shards=16)
+    # LM1 / LM2: change events applied concurrently to two resources of the legacy middleware, with a scheduling
+    # point between every transaction closure's return and its commit
+    for pkg in ("middleware", "resbadger"):
+        if tier == "quick":
+            ts += explore("LM1-" + pkg, CFG_DEFAULT, 1, shards=2, timeout="100s")
+        else:
+            ts += explore("LM1-" + pkg, CFG_DEFAULT, 2, shards=8, timeout="10m")
+            ts += explore("LM2-" + pkg, CFG_DEFAULT, 1, shards=8, timeout="10m")
+    return ts
 
 
 def tasks_c12(tier, seed):
@@ -411,7 +420,7 @@ MANIFEST_TEXT = {
     "C14": {"engine": "seq", "technique": "same enumeration as C13 with a callback oracle: OnQueryChange count per mutation, query results inside the callback, Events() against before/after reference results",
             "level": "For every mutation of every enumerated history: query-change callbacks fire exactly once iff an index key changed and after the index reflects it (queries issued inside the callback equal the post-state reference), Events reports affected whenever the reference result differs and unaffected when neither key matches; the QueryHandler path is run on a real Service for ordinary and query resources.",
             "note": "Five probe queries per mutation (both indexes, prefixes, filter, window)."},
-    "C20": {"engine": "seq", "technique": "bounded-exhaustive event sequences through both legacy BadgerDB middleware packages on a real BadgerDB, compared with a reference fold after every event and after reopening the database",
+    "C20": {"engine": "seq", "technique": "bounded-exhaustive event sequences through both legacy BadgerDB middleware packages on a real BadgerDB, compared with a reference fold after every event and after reopening the database; plus a preemption-bounded interleaving exploration of two concurrent change events (scheduling point between transaction closure and commit)",
             "level": "Every sequence of <=4 (5 thorough) events over the model / collection event alphabets for 16 configurations (package x type x typed x default x index set): after each event the get response, Value(), the published event and the listener's old values / deleted data are compared with a reference fold; inapplicable events must publish nothing and leave storage unchanged; the database is closed and reopened and compared with the fold.",
             "note": "Events are emitted from With callbacks of a real Service under the scheduler; the database is reopened after every 25th sequence."},
     "C15": {"engine": E1, "technique": "stateless model checking of the implementation with a virtual clock: preemption-bounded DFS over interleavings of query requests, expiry and callbacks",
